@@ -156,6 +156,57 @@ Section Oracles.
 
   Fixpoint aget {A} (k:str) (l:list (str * A)) : option A :=
     match l with [] => None | (k', v) :: r => if eqs k' k then Some v else aget k r end.
+  Fixpoint aset {A} (k:str) (v:A) (l:list (str * A)) : list (str * A) :=
+    match l with
+    | [] => [(k, v)]
+    | (k', v') :: r => if eqs k' k then (k', v) :: r else (k', v') :: aset k v r
+    end.
+
+  (* one item of python_object for the master object k.  fmt = k.format ; state = (multiple_scopes_done,
+     result reversed).  multiple_scopes_done.get(name, True) is False exactly when the entry exists and is false. *)
+  Definition format_item (fmt:pyval -> res obj) (k:obj) (item:pyval) (st:list (str * bool) * list obj)
+    : res (list (str * bool) * list obj) :=
+    let name := oname (ohdr k) in
+    let '(done, acc) := st in
+    match item with
+    | VScope (Ext _ fs) =>
+        if has_dot name then Crash (s_ "AssertionError") else
+        match getattr fs name with
+        | LBuiltin => unmodelled "parameter named like an attribute of scope_extract"
+        | LMissing => Ok st
+        | LField sub =>
+            if negb (omultiple k) then do x <- fmt sub; Ok (done, x :: acc)
+            else
+              do elems <- multi_items sub;
+              match elems with
+              | [] => Ok (done, copy_tmpl k 1 :: acc)
+              | _ =>
+                  let '(done', acc') :=
+                    match aget name done with
+                    | Some false => (aset name true done, copy_tmpl k (-1) :: acc)
+                    | _ => (done, acc)
+                    end in
+                  do xs <- Conv.map_res fmt elems;
+                  Ok (done', rev xs ++ acc')
+              end
+        end
+    | _ => Crash (s_ "AttributeError")                      (* item.__phil_get__ *)
+    end.
+  Fixpoint format_items (fmt:pyval -> res obj) (k:obj) (items:list pyval) (st:list (str * bool) * list obj)
+    : res (list (str * bool) * list obj) :=
+    match items with
+    | [] => Ok st
+    | i :: r => do st' <- format_item fmt k i st; format_items fmt k r st'
+    end.
+
+  (* master_active_objects for one active object: what the generator does with it *)
+  Inductive mao := MaoSkip | MaoDup | MaoYield.
+  Definition mao_step (k:obj) (first:option bool) : mao :=
+    match first with
+    | None => MaoYield
+    | Some true => MaoSkip                                  (* master.multiple: continue *)
+    | Some false => if is_def k then MaoDup else MaoYield
+    end.
 
   (* state of the loop: names_object (name -> .multiple of the first active object of that name),
      multiple_scopes_done, result (reversed) *)
@@ -170,20 +221,134 @@ Section Oracles.
         | k :: r =>
           let name := oname (ohdr k) in
           if odis (ohdr k) then go r seen done acc else
-          (* master_active_objects *)
           let first := aget name seen in
           let seen' := match first with None => seen ++ [(name, omultiple k)] | Some _ => seen end in
-          match first with
-          | Some true => go r seen' done acc                 (* master.multiple: continue *)
-          | Some false =>
-              if is_def k then UErr (s_ "DuplicateMaster") [] (oline (ohdr k))
-              else format_one k r seen' done acc
-          | None => format_one k r seen' done acc
+          match mao_step k first with
+          | MaoSkip => go r seen' done acc
+          | MaoDup => UErr (s_ "DuplicateMaster") [] (oline (ohdr k))
+          | MaoYield =>
+            let ms := omultiple k && negb (is_def k) in
+            if ms && (match aget name done with Some _ => true | None => false end) then go r seen' done acc else
+            let done1 := if ms then aset name false done else done in
+            match v with
+            | VNone => do x <- format_obj k VNone; go r seen' done1 (x :: acc)
+            | VAuto => do x <- format_obj k VAuto; go r seen' done1 (x :: acc)
+            | _ =>
+              do items <- iter_items v;
+              do st <- format_items (format_obj k) k items (done1, acc);
+              go r seen' (fst st) (snd st)
+            end
           end
-        end
-        with format_one_dummy (u:unit) : unit := u
-        for go) ks [] [] [];
+        end) ks [] [] [];
       Ok (Scp (with_tmpl h 0) out a)
-    end
-  where "'format_one' k r seen done acc" := (False_rect _ _) (only parsing).
+    end.
+
+  (* scope.extract_format(source) / definition.extract_format(source) *)
+  Definition extract_format (m source:obj) : res obj :=
+    do v <- extract_obj source; format_obj m v.
 End Oracles.
+
+(* ---------- scope_extract.__phil_path__(object_name).
+   anc = the __phil_name__ of the enclosing extracts, nearest first ([] = __phil_parent__ is None);
+   a name is an option because the constructor accepts None. *)
+Definition join_dot (l:list str) : str := Show.join_with ["."] l.
+Definition nonempty_name (n:option str) : bool := match n with Some (_ :: _) => true | _ => false end.
+Definition path_base (name:option str) (object_name:option str) : option str :=
+  match object_name with
+  | None => name
+  | Some on => match name with None | Some [] => Some on | Some n => Some (n ++ "." :: on) end
+  end.
+Fixpoint phil_path (anc:list (option str)) (name:option str) (object_name:option str) : res (option str) :=
+  match anc with
+  | [] => Ok (path_base name object_name)
+  | pn :: anc' =>
+      if negb (nonempty_name pn) then Ok (path_base name object_name) else
+      do pp <- phil_path anc' pn None;
+      match pp, name with
+      | Some p, Some n => Ok (Some (join_dot ([p; n] ++ match object_name with Some on => [on] | None => [] end)))
+      | _, _ => Crash (s_ "TypeError")                      (* ".".join of a None *)
+      end
+  end.
+
+(* the path spelled in the AttributeError messages of __setattr__ / __inject__ *)
+Definition err_path (anc:list (option str)) (n:str) (name:str) : res str :=
+  do pp <- phil_path anc (Some n) None;
+  match pp with
+  | Some [] => Ok name
+  | Some p => Ok (p ++ "." :: name)
+  | None => Crash (s_ "TypeError")
+  end.
+
+Inductive guard :=
+  | GOk (e:ext)              (* the attribute was set *)
+  | GRefuse (path:str)       (* AttributeError naming this path *)
+  | GCrash (c:str)
+  | GUnmodelled.
+
+(* attributes of object that object.__setattr__ treats specially *)
+Definition special_attr (n:str) : bool := mems n [s_ "__class__"; s_ "__dict__"; s_ "__weakref__"].
+Definition set_builtin (n:str) (fs:fields_t) (name:str) (v:pyval) : guard :=
+  if eqs name (s_ "__phil_name__") then match v with VStr s => GOk (Ext s fs) | _ => GUnmodelled end
+  else if mems name bookkeeping || special_attr name then GUnmodelled
+  else GOk (Ext n (fset name v fs)).                        (* an instance attribute shadowing the class attribute *)
+Definition refuse (anc:list (option str)) (n:str) (name:str) : guard :=
+  match err_path anc n name with Ok p => GRefuse p | UErr _ _ _ => GUnmodelled | Crash c => GCrash c end.
+
+(* scope_extract.__setattr__(name, value) *)
+Definition setattr (anc:list (option str)) (e:ext) (name:str) (v:pyval) : guard :=
+  match e with
+  | Ext n fs =>
+      match getattr fs name with
+      | LMissing => refuse anc n name
+      | LField _ => GOk (Ext n (fset name v fs))
+      | LBuiltin => set_builtin n fs name v
+      end
+  end.
+Definition setattr_ok (fs:fields_t) (name:str) : bool :=
+  match getattr fs name with LMissing => false | _ => true end.
+
+(* scope_extract.__inject__(name, value) *)
+Definition inject (anc:list (option str)) (e:ext) (name:str) (v:pyval) : guard :=
+  match e with
+  | Ext n fs =>
+      match getattr fs name with
+      | LMissing => GOk (Ext n (fset name v fs))
+      | _ => refuse anc n name
+      end
+  end.
+
+(* ---------- every scope_extract reachable in a value, with the names of its enclosing extracts
+   (nearest first) and the field names leading to it from the root *)
+Fixpoint reach (anc:list (option str)) (path:list str) (v:pyval) {struct v} : list (list (option str) * list str * ext) :=
+  match v with
+  | VScope (Ext n fs) =>
+      (anc, path, Ext n fs) ::
+      (fix go (l:fields_t) : list (list (option str) * list str * ext) :=
+         match l with
+         | [] => []
+         | (k, x) :: r => reach (Some n :: anc) (path ++ [k]) x ++ go r
+         end) fs
+  | VScopeList _ l | VList l =>
+      (fix go (l:list pyval) : list (list (option str) * list str * ext) :=
+         match l with [] => [] | x :: r => reach anc path x ++ go r end) l
+  | _ => []
+  end.
+
+Section Rendering.
+  Variable pyeval : str -> option Conv.evr.
+  Variable expanduser : str -> str.
+
+  (* extract_format(source).as_str() of a definition or a (non-root or root) scope: the canonical
+     rendering that fetch compares *)
+  Definition canon_str (m source:obj) : res str :=
+    do t <- extract_format pyeval expanduser m source;
+    Show.show_obj t [] [] None 0 Show.default_width.
+
+  (* scope.clone(python_object) = parse(format(python_object).as_str(attributes_level=3)).extract() ;
+     orc = the parser's oracle for .type / .call / eval-based attribute integers *)
+  Definition clone (orc:Parser.oracle) (m:obj) (v:pyval) : res pyval :=
+    do t <- format_obj m v;
+    do text <- Show.show_obj t [] [] None 3 Show.default_width;
+    do objs <- Parser.parse orc text;
+    extract_obj pyeval expanduser (Scp (plain_hdr []) objs []).
+End Rendering.
